@@ -535,8 +535,12 @@ func (s *vSession) digest(h *vAgentH) string {
 					d = 1
 				}
 				stc := map[CandidatePairState]string{CandidatePairStateWaiting: "w", CandidatePairStateInProgress: "i", CandidatePairStateFailed: "f", CandidatePairStateSucceeded: "s"}[p.state]
-				pairs = append(pairs, fmt.Sprintf("%d:%d>%d:%d:%s:n%dd%d:c%d:p%d:q%d/%d/%d/%d:k%d/%d/%d/%d", p.id,
-					vAddrID(p.Local.addrPort()), vAddrID(p.Remote.addrPort()), p.Remote.Type(), stc, n, d, p.bindingRequestCount, p.priority(),
+				dv := "-"
+				if p.deferredNominationValue != nil {
+					dv = fmt.Sprint(*p.deferredNominationValue)
+				}
+				pairs = append(pairs, fmt.Sprintf("%d:%d>%d:%d:%s:n%dd%dv%s:c%d:p%d:q%d/%d/%d/%d:k%d/%d/%d/%d", p.id,
+					vAddrID(p.Local.addrPort()), vAddrID(p.Remote.addrPort()), p.Remote.Type(), stc, n, d, dv, p.bindingRequestCount, p.priority(),
 					p.RequestsSent(), p.RequestsReceived(), p.ResponsesSent(), p.ResponsesReceived(),
 					p.PacketsSent(), p.PacketsReceived(), p.BytesSent(), p.BytesReceived()))
 			}
